@@ -405,9 +405,19 @@ func (m *machine) drawFn(t *rapid.T, si int) *gen.Func {
 	return gen.ByFunction(fn)
 }
 
+// drawLocalFn: the application may also keep data of a function it never announced (no AddFunctionType): a change
+// of it is a change of the server feature's data like any other.
+func (m *machine) drawLocalFn(t *rapid.T, si int) *gen.Func {
+	if un := m.w.Servers[si].Unannounced; un != "" && rapid.IntRange(0, 4).Draw(t, "unannouncedFn") == 0 {
+		world.Label("local-change/unannounced-function")
+		return gen.ByFunction(un)
+	}
+	return m.drawFn(t, si)
+}
+
 func (m *machine) localChange(t *rapid.T) {
 	si := rapid.IntRange(0, len(m.w.Servers)-1).Draw(t, "server")
-	f := m.drawFn(t, si)
+	f := m.drawLocalFn(t, si)
 	srv := m.w.Servers[si].F
 	key := fmt.Sprintf("%d/%s", si, f.Fn)
 	for _, p := range m.w.Peers {
